@@ -1016,3 +1016,18 @@ def is_atomic_bool_ty(ty):
 def is_atomic_load(t):
     d = callee_decl(t)
     return d.startswith('std::sync::atomic::Atomic') and d.endswith('::load')
+
+
+def enum_variants_of(body, operand, stop_at_calls=False):
+    """variant names an operand of enum type may hold, from constants and unit aggregates"""
+    out = set()
+    for r in origins(body, operand, stop_at_calls=stop_at_calls):
+        if r[0] == 'const':
+            c = const_of(r)
+            out.add(c.get('variant') or '?')
+        elif r[0] == 'agg':
+            rv = body.blocks[r[1]]['s'][r[2]]['r']
+            out.add(rv.get('variant') or '?')
+        else:
+            out.add('?')
+    return out
